@@ -51,4 +51,27 @@ OptionsAgree(e) ==
   /\ \A n \in IntNames : e.o[n] = Denoted(e.exp.fl, n)
   /\ e.o.Delims = <<>>
   /\ \A i \in 1..Len(e.exp.fl) : RowOf(e.exp.fl[i].flag).lang = e.lang
+
+(* --type / --mime.  cmd/minify/README.md: "--type string  Filetype (eg. css or text/css), optional when
+   specifying inputs", "--mime string  Mimetype (eg. text/css) ... (DEPRECATED, use --type)", and section
+   "Types": "Default extension mapping to mimetype (and thus minifier)" with the table transcribed here.
+   lang is the minifier the README's own description of the library assigns to the mimetype (HTML text/html,
+   CSS text/css, JS application/javascript, JSON [/+]json$, SVG image/svg+xml, XML [/+]xml$).  For a row the
+   real binary's output under --type=<type>, --type=<mimetype> and --mime=<mimetype> must equal the library's
+   output of that minifier with default options, and the input must actually have been minified. *)
+TRow(t, m, l) == [type |-> t, mime |-> m, lang |-> l]
+TypeTable == <<
+  TRow("css", "text/css", "css"), TRow("htm", "text/html", "html"), TRow("html", "text/html", "html"),
+  TRow("js", "application/javascript", "js"), TRow("json", "application/json", "json"),
+  TRow("mjs", "application/javascript", "js"), TRow("rss", "application/rss+xml", "xml"),
+  TRow("svg", "image/svg+xml", "svg"), TRow("webmanifest", "application/manifest+json", "json"),
+  TRow("xhtml", "application/xhtml-xml", "xml"), TRow("xml", "text/xml", "xml") >>
+TypeRows == 1..Len(TypeTable)
+Hows == <<"type", "type-mime", "mime">>
+TypeArgOK(e) ==
+  LET r == TypeTable[e.exp.ty] IN
+  /\ e.lang = r.lang
+  /\ \A n \in BoolNames : e.o[n] = FALSE
+  /\ \A n \in IntNames : e.o[n] = 0
+  /\ e.exp.arg = (IF e.exp.how = 1 THEN r.type ELSE r.mime)
 =============================================================================
